@@ -159,6 +159,16 @@ func (r *Reconciler) Reconcile(ctx context.Context, req reconcile.Request) (reco
 		latestRev = lr.Spec.Revision
 	}
 
+	// LatestRevision only considers revisions that are controlled by the
+	// Composition. Revisions whose owner references were stripped (e.g. by a
+	// backup and restore) are adopted below, so their numbers count too:
+	// otherwise the current revision would be renumbered below them.
+	for i := range rl.Items {
+		if rl.Items[i].Spec.Revision > latestRev {
+			latestRev = rl.Items[i].Spec.Revision
+		}
+	}
+
 	for i := range rl.Items {
 		rev := &rl.Items[i]
 
